@@ -188,10 +188,13 @@ func (v *vSim) conf(nd *vSimNode) *Config {
 	switch p.Family {
 	case "local":
 		c = DefaultLocalConfig()
-	case "fast":
+	case "fast", "slowack":
 		c = DefaultLANConfig()
 		c.ProbeInterval = 200 * time.Millisecond
 		c.ProbeTimeout = 100 * time.Millisecond
+		if p.Family == "slowack" {
+			c.ProbeTimeout = 300 * time.Millisecond
+		}
 		c.GossipInterval = 50 * time.Millisecond
 		c.PushPullInterval = 5 * time.Second
 		c.GossipToTheDeadTime = 5 * time.Second
